@@ -476,6 +476,8 @@ def run(run):
         if r:
             results.append(r)
     compressed_runs(run, ct, rng, quick)
+    from . import _repo
+    _repo.run_repo_hyper(run, "c08")
     judge(run, results)
     run.cov["rule"] = ("schedules = report orders enumerated by TLC from HyperOpt.tla (7 trials, window 5; quick: 140 sampled, "
                        "thorough: all) forced on the real HyperOptimizer through a fake pool, x scripted failing trials x 5 "
